@@ -1,6 +1,7 @@
 #![allow(dead_code, unused_imports, unused_variables, unused_mut, unused_assignments)]
 mod golden;
 mod gw;
+mod legacy;
 mod its;
 mod oracle;
 mod probes;
@@ -64,6 +65,10 @@ fn main() {
     match args[1].as_str() {
         "selftest" => {
             let ok = props::selftest::run();
+            std::process::exit(if ok { 0 } else { 2 });
+        }
+        "legacy-make" => {
+            let ok = legacy::make();
             std::process::exit(if ok { 0 } else { 2 });
         }
         "mechtest" => {
